@@ -172,6 +172,32 @@ TypedArgBase* ArgumentContainer::findArg( const ArgumentKey& key) const
 
 
 
+/// Checks that the given key is not used by an argument in this container
+/// and does not conflict with one of the stored keys.
+///
+/// @param[in]  key  The key of the argument that should be added.
+/// @throw
+///    std::invalid_argument if the key is used already or conflicts with a
+///    stored key.
+/// @since  1.47.1, 01.10.2026
+void ArgumentContainer::checkKeyUnused( const ArgumentKey& key) const
+{
+
+   for (auto const& argi : mArguments)
+   {
+      if (argi == key)
+         throw invalid_argument( "argument with key '" + format::toString( key)
+                                 + "' stored already");
+      if (argi.mismatch( key))
+         throw invalid_argument( "argument with key '" + format::toString( key)
+                                 + "' conflicts with stored entry '"
+                                 + format::toString( argi.key()));
+   } // end for
+
+} // ArgumentContainer::checkKeyUnused
+
+
+
 /// Specifies the line length to use when printing the usage.<br>
 /// Used when this container is used to store te sub-group arguments.
 /// @param[in]  useLen  The new line length to use.<br>
